@@ -16,6 +16,8 @@ import Nq.Spec.C07
 import Nq.Lemmas.C07Sub
 import Nq.Lemmas.C07Qq
 import Nq.Lemmas.C07Daemons
+import Nq.Lemmas.C07Date
+import Nq.Lemmas.HopCount
 
 namespace Nq.Props.C07
 open Nq Nq.QmailC Nq.Received Nq.Netstring
@@ -591,5 +593,164 @@ theorem C07_qmtp_rcptlen_strict (h : Nq.Gen.C07.qmtpRcptDigitCheck = 1) (big acc
     (match Qmtp.rcptLen Nq.Gen.C07.qmtpLenMax (big + 1) acc (c :: rest) with | .stop .badproto _ => True | _ => False) := by
   have : ¬ acc > Nq.Gen.C07.qmtpLenMax := by omega
   simp [Qmtp.rcptLen, h, hc, hd, this]
+
+/-! ## 8. the hop limit: 100 or more Received / Delivered-To fields ⇒ `554`, nothing queued -/
+
+/-- the calls smtp_data() makes once DATA was terminated, with the hop test made explicit, and the hop test in terms of
+    the line-based specification `HopCount.hopSpec` (machine = specification: `Nq.Lemmas.HopCount.hopsOf_eq_hopSpec`) -/
+theorem smtp_data_hops (cfg : Smtp.Cfg) (helo : Option Bytes) (mailfrom rcptto inp : Bytes)
+    (h : (Smtp.data cfg helo mailfrom rcptto inp).stop = none) :
+    ((Smtp.data cfg helo mailfrom rcptto inp).hopsBad = true ↔
+      Nq.HopCount.hopSpec (inp.take (inp.length - (Smtp.data cfg helo mailfrom rcptto inp).rest.length)) ≥ Nq.Gen.MAXHOPS) ∧
+    ∃ pre, (Smtp.data cfg helo mailfrom rcptto inp).ops =
+      pre ++ (if (Smtp.data cfg helo mailfrom rcptto inp).hopsBad then [QOp.fail] else []) ++
+        [.from_ mailfrom, .put rcptto, .close] := by
+  obtain ⟨rest, hfin⟩ := (Smtp.data_fin cfg helo mailfrom rcptto inp).1.mp h
+  clear h
+  unfold Smtp.data
+  simp only [hfin, Nq.Lemmas.HopCount.hopsOf_eq_hopSpec]
+  refine ⟨by simp, (receivedPieces pSMTP cfg.peer (Smtp.fakehelo cfg.peer helo) cfg.now).map QOp.put ++
+    (Smtp.blast .s1 (if cfg.databytes = 0 then 0 else cfg.databytes + 1) inp).ops, ?_⟩
+  simp only [decide_eq_true_eq]
+
+/-- **C07_smtp_hops.**  If the text consumed by DATA (up to and including the terminating `.` line) has 100 or more
+    header lines starting with `received` / `delivered` in any case (`HopCount.hopSpec`, the line-based specification,
+    `MAXHOPS` read off qmail-smtpd.c) then — whatever the queue program answers, whatever write faults occur — the reply
+    is exactly `554 too many hops, this message is looping (#5.4.6)` (permanent), `qmail_close` reports a failure, and
+    qmail-queue finds no complete envelope on descriptor 1 (so it queues nothing).  Below the limit the hop test
+    contributes nothing (`hopsBad = false`, the reply is chosen by `C07_smtp_ack`). -/
+theorem C07_smtp_hops (cfg : Smtp.Cfg) (helo : Option Bytes) (mailfrom : Bytes) (rs : List Bytes) (inp : Bytes)
+    (w : Option Nat) (e : QEnd) (now pid : Nat) (ht : TextOK e.text ∨ e.text.length ≤ 2)
+    (hstop : (Smtp.data cfg helo mailfrom (entries rs) inp).stop = none) :
+    ((Smtp.data cfg helo mailfrom (entries rs) inp).hopsBad = true ↔
+      Nq.HopCount.hopSpec (inp.take (inp.length - (Smtp.data cfg helo mailfrom (entries rs) inp).rest.length)) ≥ Nq.Gen.MAXHOPS) ∧
+    (Nq.HopCount.hopSpec (inp.take (inp.length - (Smtp.data cfg helo mailfrom (entries rs) inp).rest.length)) ≥ Nq.Gen.MAXHOPS →
+      ((QQ.opened w).run (Smtp.data cfg helo mailfrom (entries rs) inp).ops).verdict e ≠ [] ∧
+      Smtp.reply (Smtp.data cfg helo mailfrom (entries rs) inp)
+        (((QQ.opened w).run (Smtp.data cfg helo mailfrom (entries rs) inp).ops).verdict e) now pid = Smtp.sHops ∧
+      envComplete ((QQ.opened w).run (Smtp.data cfg helo mailfrom (entries rs) inp).ops).envPipe = false) := by
+  obtain ⟨hiff, pre, hops⟩ := smtp_data_hops cfg helo mailfrom (entries rs) inp hstop
+  refine ⟨hiff, fun hge => ?_⟩
+  have hbad := hiff.mpr hge
+  rw [hbad] at hops
+  simp only [if_true] at hops
+  have hrun : (QQ.opened w).run (Smtp.data cfg helo mailfrom (entries rs) inp).ops =
+      ((((QQ.opened w).run (pre ++ [QOp.fail])).from_ mailfrom).run [.put (entries rs)]).close := by
+    rw [hops]
+    simp [QQ.run_append, QQ.run, QQ.apply]
+  have hf0 : ((QQ.opened w).run (pre ++ [QOp.fail])).flagerr = true := by
+    simp [QQ.run_append, QQ.run, QQ.apply, QQ.fail]
+  have hf : ((QQ.opened w).run (Smtp.data cfg helo mailfrom (entries rs) inp).ops).flagerr = true := by
+    rw [hops, show pre ++ [QOp.fail] ++ [QOp.from_ mailfrom, .put (entries rs), .close] =
+      (pre ++ [QOp.fail]) ++ [QOp.from_ mailfrom, .put (entries rs), .close] from rfl, QQ.run_append]
+    exact C07_flagerr_sticky _ _ hf0
+  have hv : ((QQ.opened w).run (Smtp.data cfg helo mailfrom (entries rs) inp).ops).verdict e ≠ [] := by
+    intro hv
+    have := (verdict_flagerr _ e ht hv).1
+    rw [hf] at this
+    exact absurd this (by decide)
+  refine ⟨hv, (C07_smtp_ack _ _ now pid).2.1 hv hbad, ?_⟩
+  rw [hrun]
+  apply C07_fail_no_terminator
+  · intro op ho
+    simp at ho; subst ho; exact .rcptto rs
+  · rw [← hrun]; exact hf
+
+/-- 100 `Received:` lines, an empty line, a body and the terminator: refused, for every queue outcome -/
+example : Nq.HopCount.hopSpec ((List.replicate 100 [82, 101, 99, 101, 105, 118, 101, 100, 58, 13, 10]).flatten ++ [13, 10, 120, 13, 10, 46, 13, 10]) = 100 := by
+  decide
+/-- lines after the empty line, near misses ("receive:", "Xreceived") and `Delivered-To:` -/
+example : Nq.HopCount.hopSpec [68, 69, 76, 73, 86, 69, 82, 69, 68, 45, 13, 10, 114, 101, 99, 101, 105, 118, 101, 58, 13, 10,
+    88, 114, 101, 99, 101, 105, 118, 101, 100, 13, 10, 13, 10, 82, 101, 99, 101, 105, 118, 101, 100, 58, 13, 10] = 1 := by decide
+
+/-! ## 9. the date of the Received field: datetime_tai is the Gregorian calendar, date822fmt its RFC 822 rendering -/
+
+open Nq.Datetime in
+/-- **C07_datetime_civil.**  `datetime_tai(t)` is the proleptic Gregorian UTC date and time of the instant `t` seconds
+    after 1970-01-01 00:00:00, for every `t ∈ ℤ` (model on unbounded integers): `(year, mon, mday)` is a valid civil date
+    (month lengths, leap-year rule `isLeap`) whose day number — computed by the independent `daysFromCivil`
+    (365·years + leap days + month lengths) — is ⌊t/86400⌋; `hour:min:sec` is `t mod 86400` in base 60; the weekday is
+    (⌊t/86400⌋ + 4) mod 7 (1970-01-01 was a Thursday).  This is the predicate `civilOk` the driver evaluates on the
+    output of the real `datetime_tai`. -/
+theorem C07_datetime_civil (t : Int) :
+    validDate (tai t).year (tai t).mon (tai t).mday ∧
+    daysFromCivil (tai t).year (tai t).mon (tai t).mday = t / 86400 ∧
+    (0 ≤ (tai t).hour ∧ (tai t).hour < 24 ∧ 0 ≤ (tai t).min ∧ (tai t).min < 60 ∧ 0 ≤ (tai t).sec ∧ (tai t).sec < 60) ∧
+    (tai t).hour * 3600 + (tai t).min * 60 + (tai t).sec = t % 86400 ∧
+    (tai t).wday = (t / 86400 + 4) % 7 ∧
+    civilOk t (tai t) = true :=
+  let h := Nq.Lemmas.Datetime.tai_civil t
+  ⟨h.1, h.2.1, h.2.2.1, h.2.2.2.1, h.2.2.2.2, Nq.Lemmas.Datetime.civilOk_tai t⟩
+
+open Nq.Datetime in
+/-- **C07_datetime_unique.**  … and that determines the result: the day number of a valid civil date determines the date
+    (`daysFromCivil` is injective on valid dates), so any `(y, m, d)` that is a valid date with day number ⌊t/86400⌋ is
+    what `datetime_tai` returns. -/
+theorem C07_datetime_unique (t y m d : Int) (hv : validDate y m d) (hd : daysFromCivil y m d = t / 86400) :
+    (tai t).year = y ∧ (tai t).mon = m ∧ (tai t).mday = d :=
+  Nq.Lemmas.Datetime.tai_unique t y m d hv hd
+
+open Nq.Datetime in
+/-- the specification's day count is the calendar: 0 on 1970-01-01, every year adds its length (365, or 366 in leap
+    years), every month its length; a valid date's number lies inside its year -/
+theorem C07_calendar_sound (y : Int) :
+    daysBeforeYear 1970 = 0 ∧ daysBeforeYear (y + 1) = daysBeforeYear y + yearLen y ∧
+    daysBeforeMonth y 12 = yearLen y ∧
+    (∀ m d, validDate y m d → daysBeforeYear y ≤ daysFromCivil y m d ∧ daysFromCivil y m d < daysBeforeYear (y + 1)) := by
+  refine ⟨Nq.Lemmas.Datetime.daysBeforeYear_1970, Nq.Lemmas.Datetime.daysBeforeYear_succ y, ?_,
+    fun m d h => Nq.Lemmas.Datetime.dfc_bounds y m d h⟩
+  rw [(Nq.Lemmas.Datetime.dbm_all y).2.2.2.2.2.2.2.2.2.2.2.2, Nq.Lemmas.Datetime.yearLen_eq]
+
+open Nq.Datetime in
+/-- **C07_datetime_range.**  The range the C code supports: for `tLo ≤ t ≤ tHi` (day number in
+    `[INT_MIN + 11017, INT_MAX - 4]`, years −5 877 611 … 5 881 580) every value `datetime_tai` computes in an `int` fits in
+    32 bits — no signed overflow, no narrowing, so the C arithmetic is the integer arithmetic of the model; outside that
+    range some `int` computation leaves the range (`day -= 11017` below, `day + 4` above: undefined behaviour). -/
+theorem C07_datetime_range (t : Int) :
+    (supported t = true → ∀ x ∈ (vars t).ints, INT_MIN ≤ x ∧ x ≤ INT_MAX) ∧
+    (supported t = false → ∃ x ∈ (vars t).ints, x < INT_MIN ∨ INT_MAX < x) :=
+  ⟨Nq.Lemmas.Datetime.tai_no_overflow t, Nq.Lemmas.Datetime.tai_overflow_outside t⟩
+
+open Nq.Datetime in
+/-- `yday` (read nowhere in the package) is the day of the year **except** from March on in century years that are not
+    leap years (1900, 2100, 2200, …), where it is one too large -/
+theorem C07_datetime_yday (t : Int) : (tai t).yday = ydayCode (tai t).year (tai t).mon (tai t).mday :=
+  Nq.Lemmas.Datetime.tai_yday t
+
+open Nq.Datetime in
+/-- **C07_date822_format.**  The date at the end of the Received field, for every clock value `t ≥ 0`: it is
+    `D Mon YYYY HH:MM:SS -0000 LF` where `(YYYY, Mon, D)` is the Gregorian date of `t` (valid, day number ⌊t/86400⌋,
+    year ≥ 1970), `D` and `YYYY` are decimal numerals without leading zeros, `Mon` the three-letter English month name,
+    and `HH`, `MM`, `SS` the two-digit base-60 digits of `t mod 86400`. -/
+theorem C07_date822_format (t : Nat) :
+    ∃ D Y : Bytes, isDecimal (datetimeTai t).mday D ∧ isDecimal (datetimeTai t).year Y ∧
+      date822 (datetimeTai t) = D ++ [SP] ++ months.getD (datetimeTai t).mon [] ++ [SP] ++ Y ++ [SP] ++
+        two (datetimeTai t).hour ++ [58] ++ two (datetimeTai t).min ++ [58] ++ two (datetimeTai t).sec ++
+        [SP, 45, 48, 48, 48, 48, LF] ∧
+      (months.getD (datetimeTai t).mon []).length = 3 ∧
+      validDate (datetimeTai t).year (datetimeTai t).mon (datetimeTai t).mday ∧
+      daysFromCivil (datetimeTai t).year (datetimeTai t).mon (datetimeTai t).mday = ((t / 86400 : Nat) : Int) ∧
+      (datetimeTai t).hour * 3600 + (datetimeTai t).min * 60 + (datetimeTai t).sec = t % 86400 ∧
+      1970 ≤ (datetimeTai t).year := by
+  obtain ⟨c1, c2, c3, c4, c5, c6, c7, c8⟩ := Nq.Lemmas.C07Date.datetimeTai_civil t
+  obtain ⟨D, Y, hD, hY, he⟩ := Nq.Lemmas.C07Date.date822_format (datetimeTai t) c3 c4 c5
+  exact ⟨D, Y, hD, hY, he, Nq.Lemmas.C07Date.months_len _ c8, c1, c2, c6, c7⟩
+
+/-! non-vacuity: 1970-01-01 (Thursday), 2000-02-29, 2100-02-28 23:59:59 (no Feb 29), 1900-03-01 (before the epoch; `yday`
+    is 60, one too many), the last second of 1969, both ends of the supported range -/
+example : Nq.Datetime.tai 0 = ⟨0, 0, 0, 4, 1, 0, 0, 1970⟩ := by decide
+example : Nq.Datetime.tai 951782400 = ⟨0, 0, 0, 2, 29, 59, 1, 2000⟩ := by decide
+example : Nq.Datetime.tai 4107542399 = ⟨23, 59, 59, 0, 28, 58, 1, 2100⟩ := by decide
+example : Nq.Datetime.tai (-2203891200) = ⟨0, 0, 0, 4, 1, 60, 2, 1900⟩ ∧ Nq.Datetime.ydaySpec 1900 2 1 = 59 := by decide
+example : Nq.Datetime.tai (-1) = ⟨23, 59, 59, 3, 31, 364, 11, 1969⟩ := by decide
+example : Nq.Datetime.supported Nq.Datetime.tLo = true ∧ Nq.Datetime.supported (Nq.Datetime.tLo - 1) = false ∧
+    Nq.Datetime.supported Nq.Datetime.tHi = true ∧ Nq.Datetime.supported (Nq.Datetime.tHi + 1) = false ∧
+    (Nq.Datetime.tai Nq.Datetime.tLo).year = -5877611 ∧ (Nq.Datetime.tai Nq.Datetime.tHi).year = 5881580 := by decide
+example : Nq.Datetime.validDate 2024 1 29 ∧ Nq.Datetime.daysFromCivil 2024 1 29 = 19782 ∧ ¬ Nq.Datetime.validDate 2023 1 29 := by decide
+/-- "26 Sep 2025 00:00:00 -0000\n" -/
+example : date822 (datetimeTai 1758844800) =
+    [50, 54, 32, 83, 101, 112, 32, 50, 48, 50, 53, 32, 48, 48, 58, 48, 48, 58, 48, 48, 32, 45, 48, 48, 48, 48, 10] := by decide
+example : Nq.Datetime.isDecimal 2025 [50, 48, 50, 53] := by
+  refine ⟨by decide, by decide, by decide, by decide⟩
 
 end Nq.Props.C07
